@@ -18,6 +18,7 @@ ATOM = 14
 TEST, OR, AND, NOT, CMP, BOR, BXOR, BAND, SHIFT, ARITH, TERM, FACTOR, POWER, AWAIT = range(14)
 BINLEVEL = [BOR, BXOR, BAND, SHIFT, SHIFT, ARITH, ARITH, TERM, TERM, TERM, TERM, TERM, POWER]
 T_POW, T_IF, T_ELSE, T_LAMBDA, T_COLON, T_AWAIT, T_NOT = 20, 40, 41, 42, 43, 45, 59
+T_COMMA, T_DOT, T_LB, T_RB = 49, 50, 51, 52
 
 
 def _c09():
@@ -36,7 +37,7 @@ def leaf_int(i):
 # ---------------------------------------------------------------------------------------------------------------------
 # trees of the fragment
 
-FRAG_KINDS = ['bin', 'un', 'not', 'boolop', 'cmp', 'ifexp', 'lambda', 'await']
+FRAG_KINDS = ['bin', 'un', 'not', 'boolop', 'cmp', 'ifexp', 'lambda', 'await', 'attr', 'subscr', 'call']
 
 
 def mk(kind, kids_fn, v):
@@ -51,6 +52,13 @@ def mk(kind, kids_fn, v):
         return ['node', ['cmp', [80 + (v // 2 // 10 ** i) % 10 for i in range(n)]], [kids_fn(i) for i in range(n + 1)]]
     if kind == 'ifexp':
         return ['node', ['ifexp'], [kids_fn(0), kids_fn(1), kids_fn(2)]]
+    if kind == 'attr':
+        return ['node', ['attr', v % 5], [kids_fn(0)]]
+    if kind == 'subscr':
+        return ['node', ['subscr'], [kids_fn(0), kids_fn(1)]]
+    if kind == 'call':
+        na = v % 4
+        return ['node', ['call', na, []], [kids_fn(i) for i in range(1 + na)]]
     return ['node', [kind], [kids_fn(0)]]
 
 
@@ -72,7 +80,7 @@ class Gen:
 
 
 def arity_positions(kind):
-    return {'bin': 2, 'boolop': 3, 'cmp': 3, 'ifexp': 3}.get(kind, 1)
+    return {'bin': 2, 'boolop': 3, 'cmp': 3, 'ifexp': 3, 'subscr': 2, 'call': 4}.get(kind, 1)
 
 
 def frag_trees(ctx, rng):
@@ -80,10 +88,10 @@ def frag_trees(ctx, rng):
     out = []
     # systematic: parent kind (all operator variants) x position x child kind (a few variants)
     for pk in FRAG_KINDS:
-        pvars = {'bin': range(13), 'un': range(3), 'boolop': range(4), 'cmp': [0, 3, 11, 19]}.get(pk, [0])
+        pvars = {'bin': range(13), 'un': range(3), 'boolop': range(4), 'cmp': [0, 3, 11, 19], 'call': range(4)}.get(pk, [0])
         for pv in pvars:
             for ck in FRAG_KINDS:
-                cvars = {'bin': [0, 2, 4, 5, 8, 12], 'boolop': [0, 1], 'cmp': [0, 17]}.get(ck, [0])
+                cvars = {'bin': [0, 2, 4, 5, 8, 12], 'boolop': [0, 1], 'cmp': [0, 17], 'call': [0, 2]}.get(ck, [0])
                 for cv in cvars:
                     for pos in range(arity_positions(pk)):
                         used = [False]
@@ -105,7 +113,9 @@ SLOTS = [{'minLad': l} for l in range(15)] + [{'minLad': 0, 'named': True, 'tupl
 # continuations: (tokens, predicate on the slot level saying whether it can NOT continue a phrase of that level)
 CONTS = [([['rp']], None), ([['sym', T_ELSE], ['name', 9]], None), ([['sym', T_COLON]], None), ([['name', 9]], None),
          ([['sym', T_IF], ['name', 9], ['sym', T_ELSE], ['name', 8]], None), ([['sym', 5], ['name', 9]], None),
-         ([['sym', 70], ['name', 9]], None), ([['sym', T_POW], ['name', 9]], None), ([['sym', 82], ['name', 9]], None)]
+         ([['sym', 70], ['name', 9]], None), ([['sym', T_POW], ['name', 9]], None), ([['sym', 82], ['name', 9]], None),
+         ([['lp'], ['rp']], None), ([['sym', T_DOT], ['name', 9]], None), ([['sym', T_COMMA], ['name', 9]], None),
+         ([['sym', T_RB]], None)]
 
 
 def trees_roundtrip(ctx, rng):
@@ -167,8 +177,15 @@ def trees_roundtrip(ctx, rng):
 # CPython as the reader of raw phrases
 
 def text_of(toks):
+    """tokens -> source text as props/C09.py does (tok_text joined by blanks), except that an integer literal is glued
+    to a following `.`: `1 .x` is Python only thanks to the blank, the grammar's `noInt` is about `1.x`"""
     C09 = _c09()
-    return ' '.join(C09.tok_text(t) for t in toks)
+    out = []
+    for i, t in enumerate(toks):
+        out.append(C09.tok_text(t))
+        if i + 1 < len(toks) and not (t[0] == 'int' and toks[i + 1] == ['sym', T_DOT]):
+            out.append(' ')
+    return ''.join(out)
 
 
 OPERAND_END = ('name', 'int', 'rp')
@@ -185,7 +202,7 @@ def relex(toks):
             n = t[1]
             w = {5: '+', 6: '-', 30: '+', 31: '-'}.get(n)
             if w:
-                after_operand = bool(out) and out[-1][0] in OPERAND_END
+                after_operand = bool(out) and (out[-1][0] in OPERAND_END or out[-1] == ['sym', T_RB])
                 n = {'+': 5, '-': 6}[w] if after_operand else {'+': 30, '-': 31}[w]
                 out.append(['sym', n])
                 i += 1
@@ -234,6 +251,16 @@ def ast_to_e(n):
         return ['node', ['lambda'], [ast_to_e(n.body)]]
     if isinstance(n, ast.Await):
         return ['node', ['await'], [ast_to_e(n.value)]]
+    if isinstance(n, ast.Attribute):
+        if not (n.attr[0] == 'n' and n.attr[1:].isdigit()):
+            raise KeyError('attr')
+        return ['node', ['attr', int(n.attr[1:])], [ast_to_e(n.value)]]
+    if isinstance(n, ast.Subscript):
+        return ['node', ['subscr'], [ast_to_e(n.value), ast_to_e(n.slice)]]
+    if isinstance(n, ast.Call):
+        if n.keywords:
+            raise KeyError('keywords')
+        return ['node', ['call', len(n.args), []], [ast_to_e(n.func)] + [ast_to_e(a) for a in n.args]]
     raise KeyError(type(n).__name__)
 
 
@@ -324,6 +351,8 @@ def cpython_read(toks, context):
     lvl, pre, suf, ext = context
     text = text_of(toks)
     src = pre + text + suf
+    if any(toks[i] == ['sym', T_COMMA] and toks[i + 1] == ['rp'] for i in range(len(toks) - 1)):
+        return ('outside', 'trailing comma (not modelled by the spec grammar)')
     try:
         with warnings.catch_warnings():
             warnings.simplefilter('ignore')
@@ -349,12 +378,13 @@ def alphabet():
     al += [['sym', i] for i in range(12)] + [['sym', T_POW]]
     al += [['sym', 30 + i] for i in range(3)] + [['sym', T_NOT], ['sym', T_AWAIT], ['sym', T_LAMBDA], ['sym', T_COLON]]
     al += [['sym', 80 + i] for i in range(10)] + [['sym', 70], ['sym', 71], ['sym', T_IF], ['sym', T_ELSE]]
+    al += [['sym', T_DOT], ['sym', T_LB], ['sym', T_RB], ['sym', T_COMMA], ['lp'], ['rp']]
     return al
 
 
 SMALL = [['name', 0], ['int', 1], ['lp'], ['rp'], ['sym', 6], ['sym', 7], ['sym', T_POW], ['sym', 31], ['sym', T_NOT],
          ['sym', 82], ['sym', 88], ['sym', 86], ['sym', 70], ['sym', 71], ['sym', T_IF], ['sym', T_ELSE], ['sym', T_LAMBDA],
-         ['sym', T_COLON], ['sym', T_AWAIT], ['sym', 0]]
+         ['sym', T_COLON], ['sym', T_AWAIT], ['sym', 0], ['sym', T_DOT], ['sym', T_LB], ['sym', T_RB], ['sym', T_COMMA]]
 
 
 def enumerate_phrases(maxlen):
@@ -365,52 +395,68 @@ def enumerate_phrases(maxlen):
 
 
 def plausible(rng, n):
-    """operand/operator alternation with noise: mostly well-formed-looking phrases"""
+    """operand/operator alternation with noise and a stack of open brackets: mostly well-formed-looking phrases"""
     al = alphabet()
     infix = [t for t in al if t[0] == 'sym' and (t[1] < 12 or t[1] == T_POW or 80 <= t[1] < 90 or t[1] in (70, 71))]
     prefix = [['sym', 30], ['sym', 31], ['sym', 32], ['sym', T_NOT], ['sym', T_AWAIT]]
     out = []
-    depth = 0
+    stack = []           # 'g' group, 'c' call, 's' subscript
     want_operand = True
     pending_else = 0
     while len(out) < n:
         r = rng.random()
-        if r < 0.04:
+        if r < 0.03:
             out.append(rng.choice(al))          # noise
             continue
         if want_operand:
-            if r < 0.25:
+            if r < 0.22:
                 out.append(rng.choice(prefix))
-            elif r < 0.32:
+            elif r < 0.28:
                 out += [['sym', T_LAMBDA], ['sym', T_COLON]]
-            elif r < 0.45:
+            elif r < 0.40:
                 out.append(['lp'])
-                depth += 1
+                stack.append('g')
             else:
                 out.append(rng.choice([['name', rng.randrange(4)], ['int', rng.randrange(10)]]))
                 want_operand = False
         else:
-            if depth and r < 0.25:
-                out.append(['rp'])
-                depth -= 1
-            elif r < 0.35:
+            if stack and r < 0.22:
+                out.append(['sym', T_RB] if stack.pop() == 's' else ['rp'])
+            elif stack and stack[-1] == 'c' and r < 0.30:
+                out.append(['sym', T_COMMA])
+                want_operand = True
+            elif r < 0.36:
+                out += [['sym', T_DOT], ['name', rng.randrange(4)]]
+            elif r < 0.42:
+                out.append(['sym', T_LB])
+                stack.append('s')
+                want_operand = True
+            elif r < 0.50:
+                out.append(['lp'])
+                if rng.random() < 0.3:
+                    out.append(['rp'])
+                else:
+                    stack.append('c')
+                    want_operand = True
+            elif r < 0.57:
                 out.append(['sym', T_IF])
                 pending_else += 1
                 want_operand = True
-            elif pending_else and r < 0.55:
+            elif pending_else and r < 0.70:
                 out.append(['sym', T_ELSE])
                 pending_else -= 1
                 want_operand = True
             else:
                 out.append(rng.choice(infix))
                 want_operand = True
-    if rng.random() < 0.7:
+    if rng.random() < 0.75:
         if want_operand:
             out.append(['name', 5])
         while pending_else and rng.random() < 0.8:
             out += [['sym', T_ELSE], ['name', 6]]
             pending_else -= 1
-        out += [['rp']] * depth
+        while stack:
+            out.append(['sym', T_RB] if stack.pop() == 's' else ['rp'])
     return out
 
 
